@@ -1,7 +1,7 @@
 SPECIFICATION Spec
 CONSTANTS
     M = 65536
-    W = 1024
+    W = 32767
 INVARIANT Report
 POSTCONDITION TraceAccepted
 CHECK_DEADLOCK FALSE
